@@ -60,6 +60,9 @@ def neighbours(s, rng):
         out.add(s + s[j:])
         out.add(s + s[j:] * 2)
         out.add(s[:j] + s)
+    # strings of the same length that collide with the spelling under FNV-1a / FNV-1 / djb2 (a match on length + hash accepts them)
+    for c in gen.hash_collisions(s, same_length=True):
+        out.add(c)
     return sorted(out)
 
 
